@@ -24,14 +24,18 @@ QL == {"ql1", "ql2", "ql3", "ql4", "ql5"}
 QR == {"qr1", "qr2", "qr3", "qr4", "qr5"}
 Quotes == QL \cup QR
 Closer(o) == CASE o = "ql1" -> "qr1" [] o = "ql2" -> "qr2" [] o = "ql3" -> "qr3" [] o = "ql4" -> "qr4" [] o = "ql5" -> "qr5"
-Hex == {"1", "8", "D", "A", "B", "C", "F"}       \* hexadecimal digits available in the alphabet (upper case)
-HexVal(h) == CASE h = "1" -> 1 [] h = "8" -> 8 [] h = "A" -> 10 [] h = "B" -> 11 [] h = "C" -> 12 [] h = "D" -> 13 [] h = "F" -> 15
+Hex == {"0", "1", "8", "D", "A", "B", "C", "F"}       \* hexadecimal digits available in the alphabet (upper case)
+HexVal(h) == CASE h = "0" -> 0 [] h = "1" -> 1 [] h = "8" -> 8 [] h = "A" -> 10 [] h = "B" -> 11 [] h = "C" -> 12 [] h = "D" -> 13 [] h = "F" -> 15
 RECURSIVE HexNum(_, _)
 HexNum(ds, acc) == IF ds = <<>> THEN acc ELSE HexNum(Tail(ds), acc * 16 + HexVal(ds[1]))
-\* a valid Unicode scalar value: <= 10FFFF and not a surrogate (no 0 digit in the alphabet, so >= 7 digits is too big)
-ValidScalar(ds) == /\ Len(ds) >= 1 /\ Len(ds) <= 6
-                   /\ HexNum(ds, 0) <= 1114111
-                   /\ ~(HexNum(ds, 0) >= 55296 /\ HexNum(ds, 0) <= 57343)
+\* a valid Unicode scalar value: 1-8 hexadecimal digits (leading zeros allowed) denoting a code point <= 10FFFF that
+\* is not a surrogate.  (More than 6 significant digits is too big; checked first, TLC integers are 32 bit.)
+RECURSIVE StripZeros(_)
+StripZeros(ds) == IF Len(ds) > 1 /\ ds[1] = "0" THEN StripZeros(Tail(ds)) ELSE ds
+ValidScalar(ds) == /\ Len(ds) >= 1 /\ Len(ds) <= 8
+                   /\ Len(StripZeros(ds)) <= 6
+                   /\ HexNum(StripZeros(ds), 0) <= 1114111
+                   /\ ~(HexNum(StripZeros(ds), 0) >= 55296 /\ HexNum(StripZeros(ds), 0) <= 57343)
 
 (* ---------------- value characters ---------------- *)
 \* a value character is a symbol, or [u |-> hexdigits] for a `U+...` escape
@@ -49,7 +53,7 @@ EscapeOf(c) ==
   ELSE IF Len(c) = 1 /\ c[1] \in Quotes THEN [ok |-> TRUE, chars |-> c]
   ELSE IF Len(c) >= 3 /\ Len(c) <= 10 /\ c[1] = "U" /\ c[2] = "+" /\ (\A j \in 3..Len(c) : c[j] \in Hex)
           /\ ValidScalar(SubSeq(c, 3, Len(c)))
-       THEN [ok |-> TRUE, chars |-> << Uni(SubSeq(c, 3, Len(c))) >>]
+       THEN [ok |-> TRUE, chars |-> << Uni(StripZeros(SubSeq(c, 3, Len(c)))) >>]
   ELSE [ok |-> FALSE, chars |-> <<>>]
 
 (* ---------------- the writer ---------------- *)
@@ -94,8 +98,9 @@ ReadEscape == /\ At(i) = "bt"
                      c == IF e = 0 THEN <<>> ELSE SubSeq(lit, i + 1, e - 1)
                      r == EscapeOf(c)
                  IN IF e > 0 /\ r.ok THEN out' = out \o r.chars /\ i' = e + 1 /\ UNCHANGED soft
-                    ELSE IF e > 0 /\ NextBt(e + 1) = 0 /\ (\A j \in 1..Len(c) : c[j] \notin Quotes)
-                    THEN \* "any other back-tick text is kept literally": unambiguous when no further back-tick follows
+                    ELSE IF e > 0 /\ NextBt(e + 1) = 0 /\ (\A j \in 1..Len(c) : c[j] \notin {opener, Closer(opener)})
+                    THEN \* "any other back-tick text is kept literally": unambiguous when no further back-tick follows and the
+                         \* text holds no quote of the literal's own family (quotes of other families are ordinary characters)
                          out' = out \o <<"bt">> \o c \o <<"bt">> /\ i' = e + 1 /\ UNCHANGED soft
                     ELSE \* not an escape: the back-tick is kept literally.  How far a failed escape extends is not
                          \* documented: from here on the reading is not demanded (soft)
